@@ -100,6 +100,7 @@ def run(F, chk):
                     ra.ok(key, rdy.where(hits[0][0]), "answered with %d" % want)
                 else:
                     ra.violation(key, rdy.where(hits[0][0]), "%s::%s is answered with %s instead of %d" % (adt.split("::")[-1], var, sorted(codes), want))
+    answer_replaces_partial_response(F, chk)
     # ---------------- R-C02-b / c (path engine on Mux::timeout) -----------------------
     rb = chk.rule("R-C02-b", "T3(path engine)", "answers produced by Mux::timeout are followed by a frontend write pass", floor=1)
     rc = chk.rule("R-C02-c", "T3(path engine)", "a fired timer is re-armed on every path that keeps the session", floor=1)
@@ -177,6 +178,36 @@ def run(F, chk):
         rd.violation("is_main_phase in end_stream", "", "an end_stream implementation inspects is_main_phase() itself instead of going through shared::end_stream_decision: %s" % mp)
     else:
         rd.ok("is_main_phase in end_stream", "", "the 502-vs-retry decision is taken only in shared::end_stream_decision", nontrivial=False)
+
+
+def answer_replaces_partial_response(F, chk):
+    """R-C02-e: a default answer *replaces* whatever the backend had partially produced: wherever a rendered answer
+    is copied into a stream's back kawa, both the block list (Kawa::clear) and the storage (Buffer::clear) of that
+    kawa were cleared on every path before."""
+    import alias
+    r = chk.rule("R-C02-e", "T3", "a default answer is written into a cleared response kawa", floor=2)
+    sites = F.call_sites(MUX + "answers::copy_default_answer_to_stream")
+    r.require(sites, "no caller of copy_default_answer_to_stream found")
+    for b, bi, t in sites:
+        if b.path.endswith("tests") or "::tests::" in b.path:
+            continue
+        r.fn(b.path)
+        og = alias.Origins(b)
+        def clears(suffix):
+            out = []
+            for x, tt in b.calls():
+                if callee_of(tt).endswith(suffix) and tt["args"]:
+                    p0 = op_place(tt["args"][0])
+                    if p0 is not None and any(any(f == "back" for _, f in path) for (_, path) in og.of(pl_local(p0))):
+                        out.append(x)
+            return out
+        for what, suffix in (("block list (Kawa::clear)", "repr::Kawa::<T>::clear"), ("storage (Buffer::clear)", "buffer::Buffer::<T>::clear")):
+            cl = clears(suffix)
+            key = "%s|%s before answer" % (b.path, what.split()[0])
+            if cl and bi not in b.reach_from([0], removed=cl):
+                r.ok(key, b.where(bi), "every path to the answer copy clears the response %s first" % what)
+            else:
+                r.violation(key, b.where(bi), "a default answer is copied into the stream's response kawa on a path that did not clear its %s: blocks/bytes of a partially received backend response stay in front of the answer (malformed answer, or a panic in the H1 writer)" % what)
 
 
 def first_answer(b, start, site, weight):
